@@ -191,10 +191,10 @@ PROPS['C07'] = dict(
 PROPS['C08'] = dict(
     id='C08', domains=['coh', 'hparse', 'validate', 'unm', 'build'], no_model={'coh': True},
     n=dict(quick=dict(coh=1500, hparse=800, validate=300, unm=600, build=600), thorough=dict(coh=60000, hparse=30000, validate=20000, unm=20000, build=20000)),
-    theorems=[('Properties.C08', ['C08_header_fail_is_first_warn_finding', 'C08_header_ignore_no_findings', 'C08_header_warn_never_errors', 'C08_digest_verification_coherent'])],
+    theorems=[('Properties.C08', ['C08_header_fail_is_first_warn_finding', 'C08_header_ignore_no_findings', 'C08_header_warn_never_errors', 'C08_digest_verification_coherent', 'C08_no_axis_at_warn_parser_adds_no_finding', 'C08_no_axis_at_warn_builder_adds_no_finding', 'C08_uniform_ignore_and_uniform_fail_are_covered'])],
     kinds={'panic', 'policy-incoherent'},
     rule='coh: mutated record streams (parser, plain/gzip) and builder inputs with declared lengths/digests; each run under uniform ignore / warn / fail (no findings under ignore; nil error under fail implies empty validation; fail errs iff warn has a finding or error; rejection monotone) and axis by axis (syntax, spec, unknown type, block) against the other axes as drawn; hparse/validate/unm/build: model correspondence under all policies',
-    level_text='PARTIAL proof: mechanised for header validation (fail returns exactly the first finding warn reports, nil error implies empty validation, ignore produces none, warn never errors) and for length/digest verification (ignore none; warn returns the record; fail turns the first defect into the error). Every check site of the model goes through one policy switch (site); the header parser, parseBlock and the marker check are covered by the executable statement and the correspondence under all 81 policy combinations but their coherence lemmas are not mechanised. The defect that folded header lines ignored the policy was found here and repaired.',
+    level_text='PARTIAL proof. Proved in Coq for the WHOLE parser pipeline (record-start search, version line, header parser, header validation, parseBlock, length/digest verification, end-of-record marker) and the whole builder, for every input and every option setting with no axis at warn (uniform ignore, uniform fail, every mix): no stage adds a validation finding - so under ignore no finding is produced and under fail a nil error comes with an empty validation (sentences 1-2). Proved for header validation and for length/digest verification: fail returns exactly the first finding warn reports, warn never errors on a header defect (sentence 3 for these stages). Not mechanised: sentence 3 and the axis-by-axis monotonicity for the header parser, parseBlock and the marker check; evaluated on the implementation under uniform levels and all 81 axis settings for every generated input, the stage models being tied by the correspondence run. The defect that folded header lines ignored the policy was found here and repaired',
     level_note='Trusted: Coq kernel, extraction (ExtrOcamlBasic), harness and generators. Oracles: hash functions (Python hashlib), base32/base64 decoders, mime.WordDecoder, net/http header parsing, whatwg-url, net.ParseIP, time.Parse, Unicode case mapping; klauspost gzip (a member is its payload; a cut member yields a payload prefix then io.ErrUnexpectedEOF). bufio.Reader is remaining bytes + a persistent tail condition. Findings are compared by coarse kind derived from error texts. ',
     assumptions=[],
 )
@@ -203,7 +203,7 @@ PROPS['C04'] = dict(
     id='C04', domains=['writer', 'unm'],
     n=dict(quick=dict(writer=500, unm=1500), thorough=dict(writer=30000, unm=60000)),
     theorems=[('Properties.C04', ['C04_offsets_are_positions', 'C04_write_appends_at_the_reported_offset'])],
-    kinds={'panic', 'wrong-position', 'eof-offset', 'unreadable-file', 'reopen-mismatch'},
+    kinds={'panic', 'wrong-position', 'eof-offset', 'unreadable-file', 'reopen-mismatch', 'delivery-dependent'},
     rule='writer: 1 worker, 2-7 records of sizes around the limit, limits from half a record to unlimited, compression on/off, ratios 0.25-2, warcinfo on/off, flush on/off, 1-6 operations (single writes, batches of 2-3, the same record object written again, Rotate), a repeating name generator with empty in-progress suffix; every response is checked by opening a fresh reader at (file, offset) and by a sequential read (same offsets, EOF offset = file length); unm: for every cleanly read record of every generated stream (junk between records, plain and gzip) a fresh reader opened at the reported offset must return the same record',
     level_text="Proved in Coq for every sequence of Write (single, batched, repeated objects) and Rotate, every limit/compression/warcinfo configuration and every injective name generator: every response without error names a file that in the end contains the serialized (stamped) record as exactly one entry starting at exactly the reported offset, with BytesWritten its uncompressed length (C04_offsets_are_positions, by an invariant over all reachable writer states); Write appends at the end of the current file, whose size is the reported offset. That a reader positioned there returns that record is the subject of C01 (stage theorems) and is evaluated on the implementation for every response. The writer model agrees with the implementation on names, offsets, sizes (incl. gzip member sizes) and callbacks for every generated sequence. The defect 'first record of a rotated file reports the size of the previous file' was found here and repaired.",
     level_note='Trusted: Coq kernel, extraction, harness. The file system is abstract: a file is the list of records appended to it; entry sizes are plain lengths or the gzip member size (oracle: klauspost gzip at the default level, computed outside gowarc). float64 ratio scaling is an oracle. The name generator is assumed injective (PatternNameGenerator with {serial}). os.OpenFile/Stat/Sync/Close/Rename are assumed to behave as the model says; their failure paths are not modelled. Concurrent workers are C09/C10.',
